@@ -80,6 +80,88 @@ pub fn hostile_keys(tag: &str, idx: u32) -> Vec<(&'static str, String)> {
     v
 }
 
+/// byte offsets a multi-byte character is laid across by `straddle_keys`
+pub const STRADDLE_OFFSETS: [usize; 8] = [16, 32, 64, 128, 255, 256, 512, 1024];
+
+/// Keys in which the byte offset `off` falls INSIDE a multi-byte character (a 2-byte character starting at off-1, a
+/// 3-byte one at off-1 and at off-2, a 4-byte one at off-2): whatever cuts, slices or truncates a key at such an offset
+/// without looking for a character boundary panics.  ASCII before (starting with `tag`, at most 13 bytes), `~t` after.
+pub fn straddle_keys(tag: &str, offsets: &[usize]) -> Vec<(String, String)> {
+    assert!(tag.is_ascii() && tag.len() <= 13);
+    let mut v = vec![];
+    for &off in offsets {
+        for (ch, start) in [('é', off - 1), ('日', off - 1), ('日', off - 2), ('😀', off - 2)] {
+            let key = format!("{tag}{}{ch}~t", "x".repeat(start - tag.len()));
+            debug_assert!(!key.is_char_boundary(off));
+            // (a 3-byte character at 254 lies across 255 and across 256: keep each key once)
+            if v.iter().all(|(_, k): &(String, String)| k != &key) {
+                v.push((format!("{}-byte char across byte {off}", ch.len_utf8()), key));
+            }
+        }
+    }
+    v
+}
+
+/// the four kinds of request the limiter REJECTS (an error, not a decision): (burst, count, period, quantity)
+pub const REJECTED: [(i64, i64, i64, i64); 4] = [(0, 1, 3600, 1), (1, 0, 3600, 1), (1, 1, 0, 1), (1, 1, 3600, -1)];
+
+/// prefix lengths of the key families
+pub const FAMILY_PREFIXES: [usize; 5] = [1024, 64, 256, 4096, 16384];
+
+/// DISTINCT long keys (1025 ..= `max_len` bytes) that share a long prefix:
+///   s1 = prefix A fill      s2 = prefix B fill      (same length, one differing character right after the prefix)
+///   s3 = s1 + 1..40 more bytes (differs from s1 in length only)     s4 = s1 with another last byte
+/// `prefix_len` bytes are shared by all four (in the multi-byte flavour the prefix is made of 2- and 3-byte characters, a
+/// 2-byte character lies ACROSS offset `prefix_len` half of the time, and A / B are `é` / `ë`, which differ in their second
+/// byte).  A limiter that keys its buckets by anything less than the whole key gives two of them one bucket.
+pub struct Family {
+    pub what: String,
+    pub keys: Vec<String>,
+}
+
+pub fn prefix_family(rng: &mut Rng, tag: &str, prefix_len: usize, multibyte: bool, max_len: usize) -> Family {
+    assert!(tag.is_ascii() && tag.len() + 4 <= prefix_len);
+    let mut prefix = String::from(tag);
+    let (a, b) = if multibyte { ('é', 'ë') } else { ('A', 'B') };
+    let straddle = multibyte && rng.chance(1, 2);
+    let body_len = if straddle { prefix_len - 1 } else { prefix_len };
+    while prefix.len() < body_len {
+        let c = if multibyte { rng.pick(&['é', 'ü', '日', 'x', 'ß']) } else { (b'a' + rng.below(26) as u8) as char };
+        if prefix.len() + c.len_utf8() <= body_len {
+            prefix.push(c);
+        } else {
+            prefix.push('x');
+        }
+    }
+    if straddle {
+        // shared as well: the keys part one character later
+        prefix.push('é');
+    }
+    let lo = (prefix.len() + 8).max(1025);
+    let total = match rng.below(8) {
+        0 => lo,
+        1 => lo + 1,
+        2 if max_len > 20_000 => rng.range(20_000, max_len as i64) as usize,
+        3 if max_len > 20_000 => max_len - 50,
+        _ => (lo + rng.range(2, 2000) as usize).min(max_len - 50),
+    }
+    .max(lo);
+    let fill_len = total - prefix.len() - a.len_utf8();
+    let fill: String = (0..fill_len).map(|_| (b'a' + rng.below(26) as u8) as char).collect();
+    let s1 = format!("{prefix}{a}{fill}");
+    let s2 = format!("{prefix}{b}{fill}");
+    let s3 = format!("{s1}{}", "a".repeat(rng.range(1, 40) as usize));
+    let mut s4 = s1.clone();
+    let last = s4.pop().unwrap();
+    s4.push(if last == 'q' { 'r' } else { 'q' });
+    let keys = vec![s1, s2, s3, s4];
+    debug_assert!(keys.iter().all(|k| k.len() >= 1025 && k.len() <= max_len && k.starts_with(&prefix)));
+    Family {
+        what: format!("{} keys of {} bytes sharing a prefix of {} bytes{}", keys.len(), keys.iter().map(|k| k.len().to_string()).collect::<Vec<_>>().join("/"), prefix.len(), if multibyte { " (multi-byte characters)" } else { "" }),
+        keys,
+    }
+}
+
 /// one numeric argument: (RESP value, Some(n) if Rust's i64 parse accepts it)
 fn num_arg(rng: &mut Rng, n: i64) -> RespValue {
     match rng.below(10) {
@@ -394,7 +476,39 @@ pub fn run(seed: u64, n: usize, out: &mut Out) {
                     let at = rng.below(units.len() as u64 + 1) as usize;
                     units.insert(at, pair);
                 }
+                // requests the limiter REJECTS (its error path runs, with TRACE logging enabled), on every hostile key and
+                // on keys with a multi-byte character across offsets 16 .. 1024 (two offsets per hostile batch, in turn)
+                let k = batch / 4;
+                let offs = [STRADDLE_OFFSETS[(2 * k) % 8], STRADDLE_OFFSETS[(2 * k + 1) % 8]];
+                let tag = format!("r{}_", batch % 10000);
+                let mut keys: Vec<String> = hostile_keys(&tag, (batch % 1000) as u32).into_iter().map(|x| x.1).collect();
+                keys.extend(straddle_keys(&tag, &offs).into_iter().map(|x| x.1));
+                for key in keys {
+                    let mut unit = vec![];
+                    for (b, c, p, q) in REJECTED {
+                        let mut xs = vec![bulk(&throttle_name(&mut rng)), bulk(&key), num_arg(&mut rng, b), num_arg(&mut rng, c), num_arg(&mut rng, p)];
+                        if q != 1 || rng.chance(1, 2) {
+                            xs.push(num_arg(&mut rng, q));
+                        }
+                        unit.push((RespValue::Array(xs), Intent::Forward(key.clone(), b, c, p, q), Some("rejected")));
+                    }
+                    let at = rng.below(units.len() as u64 + 1) as usize;
+                    units.insert(at, unit);
+                }
+                // a family of distinct long keys with a shared prefix: each is exhausted in turn (burst 1: allowed, then
+                // denied); every sibling must start fresh
+                let fam = prefix_family(&mut rng, &format!("fam{}_", batch % 10000), [1024usize, 64, 256][k % 3], k % 2 == 1, 2500);
+                let mut unit = vec![];
+                for key in &fam.keys {
+                    for half in ["family-1st", "family-2nd"] {
+                        let xs = vec![bulk(&throttle_name(&mut rng)), bulk(key), num_arg(&mut rng, 1), num_arg(&mut rng, 1), num_arg(&mut rng, 3600)];
+                        unit.push((RespValue::Array(xs), Intent::Forward(key.clone(), 1, 1, 3600, 1), Some(half)));
+                    }
+                }
+                let at = rng.below(units.len() as u64 + 1) as usize;
+                units.insert(at, unit);
             }
+            let mut limiter_gone = false;
             for (v, intent, hostile) in units.into_iter().flatten() {
                 let (ex, before, after, _moved) = exec_command(&v, &handle, &metrics).await;
                 let vtxt = show(&v);
@@ -474,7 +588,17 @@ pub fn run(seed: u64, n: usize, out: &mut Out) {
                     }
                     Intent::Forward(key, b, c, p, q) => {
                         out.bump("throttle_forwarded");
-                        if procs.len() != 1 {
+                        let gone = matches!(reply, RespValue::Error(e) if e.contains("actor has shut down") || e.contains("dropped response channel"));
+                        if procs.is_empty() && gone {
+                            // the limiter no longer serves: some earlier request of this batch stopped it
+                            if !limiter_gone {
+                                limiter_gone = true;
+                                let mut replay = batch_replay.iter().rev().take(12).rev().cloned().collect::<Vec<_>>();
+                                replay.extend(these.clone());
+                                let txt = if let RespValue::Error(e) = reply { e.clone() } else { show(reply) };
+                                out.violation("C11", format!("a well-formed THROTTLE is answered {txt:?} - the limiter stopped serving after an earlier request of this batch (TRACE logging enabled)"), replay);
+                            }
+                        } else if procs.len() != 1 {
                             out.violation("C12", format!("well-formed THROTTLE produced {} limiter calls", procs.len()), these.clone());
                         } else {
                             let body = &procs[0][5..];
@@ -503,10 +627,10 @@ pub fn run(seed: u64, n: usize, out: &mut Out) {
                     }
                 }
                 // --- the hostile-key pair: answered allowed (remaining 0), then denied (remaining 0)
-                if let Some(half) = hostile {
+                if let Some(half) = hostile.filter(|h| h.starts_with("hostile")) {
                     out.bump("hostile_key_commands");
                     let want = if half == "hostile-1st" { " -> ok,1,1,0," } else { " -> ok,0,1,0," };
-                    if !(procs.len() == 1 && procs[0].contains(want)) {
+                    if !(procs.len() == 1 && procs[0].contains(want)) && !limiter_gone {
                         out.violation(
                             "C12",
                             format!("{half} THROTTLE <hostile key> 1 1 3600 on a fresh limiter: limiter log {procs:?}, reply {}; want the decision{want}..", show(reply)),
@@ -515,6 +639,25 @@ pub fn run(seed: u64, n: usize, out: &mut Out) {
                     }
                     if half == "hostile-2nd" {
                         out.bump("hostile_keys_denied");
+                    }
+                }
+                if let Some(half) = hostile.filter(|h| h.starts_with("family")) {
+                    out.bump("family_key_commands");
+                    let want = if half == "family-1st" { " -> ok,1,1,0," } else { " -> ok,0,1,0," };
+                    if !(procs.len() == 1 && procs[0].contains(want)) && !limiter_gone {
+                        let klen = if let Intent::Forward(k, ..) = &intent { k.len() } else { 0 };
+                        let shown: Vec<String> = procs.iter().map(|p| p.rsplit(" -> ").next().unwrap_or("").to_string()).collect();
+                        out.violation(
+                            "C09",
+                            format!("{half} THROTTLE <key of {klen} bytes> 1 1 3600, the key being one of several distinct long keys that share a prefix, each used for the first time in this batch: the limiter decided {shown:?}, reply {}; want{want}.. (budgets of distinct keys are independent)", show(reply)),
+                            these.iter().map(|l| if l.len() > 600 { format!("{}...", &l[..600]) } else { l.clone() }).collect(),
+                        );
+                    }
+                }
+                if hostile == Some("rejected") {
+                    out.bump("rejected_hostile_key_commands");
+                    if !(procs.len() == 1 && procs[0].ends_with(" -> err")) && !limiter_gone {
+                        out.violation("C11", format!("a THROTTLE with invalid limits on a hostile key: limiter log {:?}, reply {}; want one limiter call answered with an error", procs.iter().map(|p| p.rsplit(" -> ").next().unwrap_or("")).collect::<Vec<_>>(), show(reply)), these.clone());
                     }
                 }
                 batch_replay.extend(these);
